@@ -396,11 +396,11 @@ func runC01R1(c *Ctx, r *Rep) {
 			case s.api == "": // identity: no API call except NewBool
 				bad := false
 				for _, g := range got {
-					if g != "NewBool" {
-						bad = true
+					if g != "NewBool" && g != "Is" {
+						bad = true // py.Is is the identity helper (handles slice- and map-backed objects); anything else dispatches
 					}
 				}
-				r.check(!bad, key, armPos[s.cmp], "identity comparison, no dispatch", fmt.Sprintf("identity operator arm %s calls %v", s.cmp, got))
+				r.check(!bad, key, armPos[s.cmp], "identity comparison, no dispatch to a special method", fmt.Sprintf("identity operator arm %s calls %v", s.cmp, got))
 			default:
 				has := false
 				for _, g := range got {
